@@ -118,6 +118,15 @@ func sameOrigin(a, b ssa.Value) bool {
 	if oka && okb && la.X == lb.X {
 		return true
 	}
+	// two loads of the same field of the same object (go/ssa does no CSE); a store to the
+	// field in between is not tracked — callers use this for guards that directly precede the use
+	if oka && okb {
+		fa, ok1 := la.X.(*ssa.FieldAddr)
+		fb, ok2 := lb.X.(*ssa.FieldAddr)
+		if ok1 && ok2 && fa.Field == fb.Field && (fa.X == fb.X || sameOrigin(fa.X, fb.X)) {
+			return true
+		}
+	}
 	ea, oka2 := a.(*ssa.Extract)
 	eb, okb2 := b.(*ssa.Extract)
 	if oka2 && okb2 && ea.Tuple == eb.Tuple && ea.Index == eb.Index {
